@@ -19,10 +19,12 @@ ModSuffixes == {<<>>, <<"a">>, <<"a", "b">>}
 
 ValueShapes(hasColonArg, hasSuffixMods) ==
   {AvExpr(V1), AvExpr(Call("dc", S(<<99>>))), AvStr(<<"a", "sp", "b">>), AvNone,
-   AvArr(V1, FALSE, Undefined, FALSE, <<>>)}
+   AvArr(V1, FALSE, Undefined, FALSE, <<>>),
+   AvArr(ArrLit(<<V1, Lit(Num(1))>>), FALSE, Undefined, FALSE, <<>>),           \* v-foo={[[v, 1]]}: the value is the array
+   AvArr(ArrLit(<<ArrLit(<<V1>>)>>), FALSE, Undefined, FALSE, <<>>)}
   \cup (IF hasColonArg THEN {} ELSE {AvArr(V1, TRUE, A1, FALSE, <<>>), AvArr(V1, TRUE, Lit(S(<<122>>)), FALSE, <<>>)})
   \cup (IF hasSuffixMods THEN {} ELSE {AvArr(V1, FALSE, Undefined, TRUE, <<"m", "n">>), AvArr(V1, FALSE, Undefined, TRUE, <<>>)})
-  \cup (IF hasColonArg \/ hasSuffixMods THEN {} ELSE {AvArr(V1, TRUE, A1, TRUE, <<"m">>)})
+  \cup (IF hasColonArg \/ hasSuffixMods THEN {} ELSE {AvArr(V1, TRUE, A1, TRUE, <<"m">>), AvArr(ArrLit(<<V1, A1>>), TRUE, A1, TRUE, <<"m">>)})
 
 Dirs == {Dir(sp[1], sp[2], sp[3], ms, val) :
            sp \in Spellings, ms \in ModSuffixes, val \in UNION {ValueShapes(a, m) : a \in BOOLEAN, m \in BOOLEAN}}
@@ -31,7 +33,9 @@ ValidDir(d) == d.val \in ValueShapes(d.arg # "", d.mods # <<>>)
 Companions == {<<>>, <<Plain("id", AvExpr(Ident("u1", FALSE, Num(7))))>>, <<Plain("class", AvStr(<<"c">>))>>,
                <<Plain("ref", AvExpr(Ident("r1", FALSE, Opq("vr1"))))>>,
                <<VHtml(AvExpr(Ident("hh", FALSE, S(<<104>>))))>>, <<VText(AvStr(<<"a", "sp">>))>>,
-               <<VHtml(AvStr(<<"b">>))>>, <<VText(AvExpr(Call("tt", S(<<116>>))))>>}
+               <<VHtml(AvStr(<<"b">>))>>, <<VText(AvExpr(Call("tt", S(<<116>>))))>>,
+               <<VHtml(AvArr(ArrLit(<<Ident("hh", FALSE, S(<<104>>)), Lit(Num(2))>>), FALSE, Undefined, FALSE, <<>>))>>,
+               <<VText(AvArr(Ident("hh", FALSE, S(<<104>>)), FALSE, Undefined, FALSE, <<>>))>>}
 Hosts == {TagHtml("div"), TagComp("Foo", TRUE, Opq("vFoo"))}
 Kids  == {<<>>, <<ChText(<<"a">>), ChExpr(Ident("cu", FALSE, S(<<115>>)))>>}
 
